@@ -26,10 +26,14 @@ def keys():
 
 NAME_LISTS = [[b"From", b"Subject", b"To", b"Date"], [b"from", b"subject"], [b"FROM", b"SuBjEcT", b"dAtE"], [b"From", b"X-Missing", b"From"],
               [b"From", b"From", b"Subject", b"Subject"], [b"From", b"X-Alpha", b"x-beta", b"Content-Transfer-Encoding"], [b"x-ALPHA", b"From", b"X-BETA"],
-              [b"From"], [b"From", b"To", b"Subject", b"Date", b"Message-ID", b"MIME-Version", b"Content-Type"]]
+              [b"From"], [b"From", b"To", b"Subject", b"Date", b"Message-ID", b"MIME-Version", b"Content-Type"],
+              # (the order in h= is the order of hashing, wherever the field lives - message or MIME part)
+              [b"Content-Type", b"From", b"To", b"Subject", b"Date"], [b"From", b"Content-Transfer-Encoding", b"Subject", b"Content-Type", b"Date"], [b"MIME-Version", b"Content-Type", b"From"]]
 BODIES = [b"", b"\r\n", b"\r\n\r\n\r\n", b" \r\n", b" \t \r\n\t\r\n", b"body text\r\nsecond\r\n", b"no final newline", b"trailing  \r\n\r\n\r\n", b"a  b\t\tc \t\r\nx \r\n",
           b"ends with spaces   ", b"\tlead\r\n", b"lone\rcr and\nlf\r\n", b".\r\n..\r\n", "héllo wörld\r\n".encode(), b"x" * 1200 + b"\r\n", b"line\r\n" * 300 + b"\r\n" * 5,
-          b"a\r\n\r\nb\r\n", b"a \r\n \r\nb", b"   ", b"\r\n a"]
+          b"a\r\n\r\nb\r\n", b"a \r\n \r\nb", b"   ", b"\r\n a",
+          # white space that is not WSP: form feed, vertical tab at line ends and on lines of their own
+          b"page one\x0c\r\n\x0c\r\npage two \x0b\r\n", b"text\r\n\x0c", b"a\x0c \r\nb \x0c\r\n"]
 SUBJECTS = [b"Hello world", b"", b"  two  spaces\tand tab ", "Grüße aus Köln – encoded words".encode(), b"a" * 200, b"word " * 40, b"trailing blank ", b"x:y; b=zzz; bh=qqq", b"fold " + b"f" * 70 + b" end",
             b"Re: Status of the build", b"a : b :c: d", b"Fwd:  Re:\tx", b"ends with colon:", b": starts with colon", b"10:30 : meeting ; x = y"]
 XVALS = [None, b"key: value : more", b"plain", b"with  double  blanks", b"tab\there", "ünï".encode(), b"v" * 1500, b"b=fake; h=from"]
